@@ -75,20 +75,20 @@ impl Sub for ReservedKeys {
     t!("(&str,Vec)", CustomClaim::try_from((k, vec![1, 2, 3])));
     t!("(&str,struct)", CustomClaim::try_from((k, Point { x: 1, y: "p".into() })));
     t!("(&str,Value)", CustomClaim::try_from((k, json!({"a": [1, null]}))));
-    t!("(String,&str)", CustomClaim::try_from((k.to_string(), "value")));
-    t!("(String,i64)", CustomClaim::try_from((k.to_string(), -7i64)));
-    t!("(String,bool)", CustomClaim::try_from((k.to_string(), false)));
-    t!("(String,Vec)", CustomClaim::try_from((k.to_string(), vec!["a".to_string()])));
-    t!("(String,struct)", CustomClaim::try_from((k.to_string(), Point { x: 2, y: "q".into() })));
-    t!("(String,Option)", CustomClaim::try_from((k.to_string(), Some(3u8))));
+    t!("(String,&str)", CustomClaim::try_from((crate::gen::owned(k, 1), "value")));
+    t!("(String,i64)", CustomClaim::try_from((crate::gen::owned(k, 2), -7i64)));
+    t!("(String,bool)", CustomClaim::try_from((crate::gen::owned(k, 3), false)));
+    t!("(String,Vec)", CustomClaim::try_from((crate::gen::owned(k, 4), vec!["a".to_string()])));
+    t!("(String,struct)", CustomClaim::try_from((crate::gen::owned(k, 5), Point { x: 2, y: "q".into() })));
+    t!("(String,Option)", CustomClaim::try_from((crate::gen::owned(k, 6), Some(3u8))));
     // value types at the edge of (or beyond) what JSON can carry: constructing the claim succeeds all the same
     t!("(&str,u128)", CustomClaim::try_from((k, u128::MAX)));
-    t!("(String,i128)", CustomClaim::try_from((k.to_string(), i128::MIN)));
+    t!("(String,i128)", CustomClaim::try_from((crate::gen::owned(k, 7), i128::MIN)));
     t!("(&str,f64::NAN)", CustomClaim::try_from((k, f64::NAN)));
     t!("(&str,None)", CustomClaim::try_from((k, None::<String>)));
-    t!("(String,unit)", CustomClaim::try_from((k.to_string(), ())));
+    t!("(String,unit)", CustomClaim::try_from((crate::gen::owned(k, 8), ())));
     t!("(&str,tuple-keyed map)", CustomClaim::try_from((k, std::collections::BTreeMap::from([((1u8, 2u8), 3u8)]))));
-    t!("(String,u64::MAX)", CustomClaim::try_from((k.to_string(), u64::MAX)));
+    t!("(String,u64::MAX)", CustomClaim::try_from((crate::gen::owned(k, 9), u64::MAX)));
     if c.through_token && !RESERVED.contains(&k) && !k.is_empty() {
       cl.tag("through-token");
       let km = keys::material(Proto::V4L, &[21u8; 32]);
@@ -257,11 +257,11 @@ impl Sub for TimeCtors {
       };
     }
     ctor!("ExpirationClaim(&str)", "exp", ExpirationClaim::try_from(s));
-    ctor!("ExpirationClaim(String)", "exp", ExpirationClaim::try_from(s.to_string()));
+    ctor!("ExpirationClaim(String)", "exp", ExpirationClaim::try_from(crate::gen::owned(s, s.len() as u8)));
     ctor!("NotBeforeClaim(&str)", "nbf", NotBeforeClaim::try_from(s));
-    ctor!("NotBeforeClaim(String)", "nbf", NotBeforeClaim::try_from(s.to_string()));
+    ctor!("NotBeforeClaim(String)", "nbf", NotBeforeClaim::try_from(crate::gen::owned(s, 1 + s.len() as u8)));
     ctor!("IssuedAtClaim(&str)", "iat", IssuedAtClaim::try_from(s));
-    ctor!("IssuedAtClaim(String)", "iat", IssuedAtClaim::try_from(s.to_string()));
+    ctor!("IssuedAtClaim(String)", "iat", IssuedAtClaim::try_from(crate::gen::owned(s, 2 + s.len() as u8)));
     if c.valid && c.through_token {
       cl.tag("through-token");
       let km = keys::material(Proto::V4L, &[22u8; 32]);
@@ -401,6 +401,30 @@ fn not_a_date() -> BoxedStrategy<String> {
 /// reserved key replaced by each code point congruent to it modulo 256, and all three replaced at once
 fn byte_truncation_confusables() -> Vec<KeyCase> {
   let mut v = vec![];
+  // what a normalising or case-folding comparison would take for a reserved key: ordinary keys, all of them
+  for r in ["iss", "sub", "aud", "exp", "nbf", "iat", "jti"] {
+    for how in 0..8u8 {
+      if let Some(k) = crate::gen::confusable(r, how) {
+        v.push(KeyCase { key: k, through_token: false });
+      }
+    }
+    let chars: Vec<char> = r.chars().collect();
+    let wide = |c: char| char::from_u32(c as u32 - 0x20 + 0xff00).unwrap_or(c);
+    v.push(KeyCase { key: chars.iter().map(|c| wide(*c)).collect(), through_token: false });
+    v.push(KeyCase { key: chars.iter().map(|c| wide(c.to_ascii_uppercase())).collect(), through_token: false });
+    for i in 0..3 {
+      let mut one = chars.clone();
+      one[i] = wide(one[i]);
+      v.push(KeyCase { key: one.iter().collect(), through_token: i == 0 });
+    }
+    for z in ['\u{200b}', '\u{200c}', '\u{200d}', '\u{2060}', '\u{feff}', '\u{ad}', '\u{fe0f}', '\u{34f}', '\u{61c}', '\u{180e}'] {
+      for i in 0..=3 {
+        let mut k: Vec<char> = chars.clone();
+        k.insert(i, z);
+        v.push(KeyCase { key: k.iter().collect(), through_token: false });
+      }
+    }
+  }
   // keys whose TEXT is a JSON / Rust / URL escape spelling of a reserved key (backslash-u, percent, HTML entity ...): as key
   // text they are ordinary keys
   for r in ["iss", "sub", "aud", "exp", "nbf", "iat", "jti"] {
@@ -609,11 +633,11 @@ impl Sub for FirstUse {
     };
     let mut done = 0;
     for run in 0..c.runs.min(5000) {
-      let out = match std::process::Command::new(&exe).args(["c18-first", &c.threads.to_string(), &((c.shift as u32 + run) % 7).to_string()]).env_remove("LD_PRELOAD").output() {
-        Ok(o) => o,
-        Err(_) => continue,
+      let out = match run_helper(std::process::Command::new(&exe).args(["c18-first", &c.threads.to_string(), &((c.shift as u32 + run) % 7).to_string()]).env_remove("LD_PRELOAD"), 30, "C18 first-use helper") {
+        Some(o) if !o.timed_out => o,
+        _ => continue,
       };
-      let text = String::from_utf8_lossy(&out.stdout).to_string();
+      let text = out.stdout.clone();
       if let Some(l) = text.lines().find(|l| l.starts_with("ACCEPTED ")) {
         vio!("C18:reserved-key-accepted:first-use-in-a-process"; "process #{} of {}, {} threads constructing claims as the first use of the library: {}", run, c.runs, c.threads, l);
       }
